@@ -6,6 +6,7 @@ package PKG
 
 import (
 	"bytes"
+	"time"
 	"encoding/json"
 	"fmt"
 	"os"
@@ -174,7 +175,29 @@ func vsnapshot(v interface{}) interface{} {
 	return v
 }
 func vsetNow(ns int64) { vNowNs = ns }
-func vgetNow() int64   { return vNowNs }
+func vgetNow() int64 {
+	if vRealClock {
+		return time.Now().UnixNano()
+	}
+	return vNowNs
+}
+
+// vrealclock: the harness wants the real clock when replayed natively (its package is
+// built without the time.Now redirection); a no-op for the engine.
+func vrealclock() { vRealClock = true }
+
+var vRealClock bool
 func vyield()          {}
+
+// vquiesce: natively, make every armed timer due on the redirected clock and give the
+// other goroutines real time to run.
+func vquiesce() {
+	if vRealClock {
+		time.Sleep(1500 * time.Millisecond)
+		return
+	}
+	vNowNs += 2000000
+	time.Sleep(40 * time.Millisecond)
+}
 func vsymbolic() bool  { return false }
 func vnote(s string)   {}
